@@ -74,14 +74,14 @@ ASSUMPTIONS = [
     "powers with a non-literal exponent are only exercised in child processes (the liveness probe), never in-process",
 ]
 BUDGET = {"quick": 45, "thorough": 400}
-NCASES = {"quick": 5000, "thorough": 90000}
+NCASES = {"quick": 12000, "thorough": 150000}
 CASE_TIMEOUT = 30.0
 EVAL_COUNTER = "cases"
 FLOORS = {
-    "quick": {"sound_accepts": 150, "rejected_truly_complex": 100, "complex_value_held": 120, "real_must_raise_raised": 100, "real_value_held": 100,
-              "operands_checked": 800},
-    "thorough": {"sound_accepts": 3000, "rejected_truly_complex": 2000, "complex_value_held": 2500, "real_must_raise_raised": 2000,
-                 "real_value_held": 2000, "operands_checked": 16000},
+    "quick": {"sound_accepts": 800, "rejected_truly_complex": 640, "complex_value_held": 1100, "real_must_raise_raised": 800, "real_value_held": 800,
+              "operands_checked": 9000},
+    "thorough": {"sound_accepts": 10000, "rejected_truly_complex": 8000, "complex_value_held": 14000, "real_must_raise_raised": 10000,
+                 "real_value_held": 10000, "operands_checked": 110000},
 }
 COVER_FLOORS = {
     "quick": {"guards_soundly_accepted": ["LT", "GT", "LE", "GE", "MinValue", "MaxValue"], "hang_probe": ["done"]},
@@ -411,7 +411,17 @@ class Hostile:
     def dl(self, depth=1):
         rng = self.rng
         neg = lambda: -1 - abs(self.zc())  # noqa: E731
-        k = rng.randrange(12)
+        k = rng.randrange(17)
+        if k == 12:
+            return neg() ** rng.choice([0.5, 1.5, -0.5, 2.5])
+        if k == 13:
+            return ufl.real(self.fs()) ** rng.choice([0.5, 1.5, -0.5])
+        if k == 14:
+            return ufl.sqrt(neg())
+        if k == 15:
+            return ufl.sqrt(ufl.real(self.fs())) * self.rp(0)
+        if k == 16:
+            return (self.xk() - 7.5) ** rng.choice([0.5, -1.5]) + self.rp(0)
         if k == 0:
             return ufl.ln(neg())
         if k == 1:
@@ -884,6 +894,10 @@ PROBE_AFTER_READY = 20.0  # seconds a child may take after its imports and its c
 PROBE_TOTAL = 75.0  # overall limit; a child that is not READY by then is counted as not started (inconclusive)
 
 
+def _done(out):
+    return any(ln.startswith("DONE ") for ln in out.split("\n")[:-1])
+
+
 def once(ctx):
     if ctx.sub != 0 or not HANG_PROBE:
         return
@@ -918,7 +932,7 @@ def once(ctx):
             for d in live.values():
                 if d["state"] is not None:
                     continue
-                if "DONE" in d["out"]:
+                if _done(d["out"]):
                     d["state"] = "exited"
                 elif d["ready"] is not None and now - d["ready"] > PROBE_AFTER_READY:
                     d["state"] = "hung"
@@ -943,7 +957,7 @@ def once(ctx):
             ctx.count("hang_probe_control_failed")
             continue
         ctx.covered("hang_probe", "done")
-        if d["state"] == "hung" and "DONE" not in so:
+        if d["state"] == "hung" and not _done(so):
             ctx.count("hang_probe_hung")
             ctx.violation(
                 f"C23/complex/no-verdict-hang/Power-exponent-{name}",
@@ -951,7 +965,7 @@ def once(ctx):
                 "(the literal-exponent control in the same process returned at once)",
                 {"exponent": name, "stdout": so[-300:]},
             )
-        elif "DONE" in so:
+        elif _done(so):
             ctx.count("hang_probe_returned")
             ctx.covered("hang_probe_results", name + ":" + so.strip().splitlines()[-1])
         else:
